@@ -20,7 +20,7 @@ PROBES = []
 
 PLAN = {
   'quick': {'strata': {'general': 4000, 'deep-init': 2500, 'very-deep': 2500}, 'wall_s': 300, 'chunk': 100, 'min_conclusive': 1000},
-  'thorough': {'strata': {'general': 100000, 'deep-init': 70000, 'very-deep': 70000}, 'wall_s': 900, 'chunk': 250, 'min_conclusive': 10000},
+  'thorough': {'strata': {'general': 100000, 'deep-init': 70000, 'very-deep': 70000}, 'wall_s': 900, 'chunk': 250, 'min_conclusive': 1000},
 }
 
 def companion(run, res):
